@@ -26,7 +26,7 @@ fn spec(t: Tier) -> Spec {
     Spec {
         id: "C03",
         level: "exploration",
-        rule: format!("every ordered forest of directories, files and links to a directory (walked under -P and -L) with <= {n} nodes (sibling names B,Z,_,a,a.b,é: byte order differs from case-folded order) x every subset of its directories (and the starting point) selected for pruning x 3 expression forms (path alternation before -prune -o -print; -print before the prune test; -name TEST -prune -o -print) x (pre-order | -depth | unreachable -delete, the latter two written before and after the expression holding -prune) x 5 depth windows x (-sorted: exact sequence | unsorted: multiset + parent/child order); scale slice: one hand-built tree (sibling names of 1, 15, 16, 17, 32 and 33 bytes sharing 16-byte prefixes, a chain six directories deep, a link to a directory between later siblings, a directory of 40 files) with every single and every pair of directories/links pruned, every name, all forms and windows, pre-order/-depth/unreachable -delete, -sorted on/off, -P/-L; non-trivial = case with a non-empty prune set"),
+        rule: format!("every ordered forest of directories, files and links to a directory (walked under -P and -L) with <= {n} nodes (sibling names B,Z,_,a,a.b,é: byte order differs from case-folded order) x every subset of its directories (and the starting point) selected for pruning x 3 expression forms (path alternation before -prune -o -print; -print before the prune test; -name TEST -prune -o -print) x (pre-order | -depth | unreachable -delete, the latter two written before and after the expression holding -prune) x 5 depth windows x (-sorted: exact sequence | unsorted: multiset + parent/child order); file-system boundary slice: a tmpfs mounted on r/m inside the tree, -xdev and -mount, -prune on the mount point / on a sibling / before and after -print, -depth, -maxdepth 1 (the mount point is visited, nothing below it, its later siblings always); scale slice: one hand-built tree (sibling names of 1, 15, 16, 17, 32 and 33 bytes sharing 16-byte prefixes, a chain six directories deep, a link to a directory between later siblings, a directory of 40 files) with every single and every pair of directories/links pruned, every name, all forms and windows, pre-order/-depth/unreachable -delete, -sorted on/off, -P/-L; non-trivial = case with a non-empty prune set"),
         bound: json!({"max_nodes": n, "forms": ["paths-prune-or-print", "print-then-prune", "name-prune-or-print"], "orders": ["pre", "-depth", "unreachable -delete", "-depth after", "unreachable -delete after"], "windows": ["none","min1","max1","max2","min1 max2"]}),
         assumptions: vec!["-prune's truth value is true in both walk orders (the statement only fixes its effect on the walk)".into()],
         shards: 0,
@@ -328,6 +328,85 @@ fn run(ctx: &mut Ctx) {
         }
     }
     scale_slice(ctx);
+    if ctx.shard == 0 {
+        xdev_slice(ctx);
+    }
+}
+
+/// -xdev / -mount with a second file system mounted inside the tree (a tmpfs on r/m): the mount
+/// point itself is visited, nothing below it; -prune on it, on a sibling directory, before and after
+/// -print, pre-order and -depth: the siblings that come after the mount point must still be visited.
+fn xdev_slice(ctx: &mut Ctx) {
+    use std::ffi::CString;
+    let sbx = ctx.sbx.clone();
+    crate::sandbox::clear_dir(&sbx);
+    let mk = |p: &str, dir: bool| {
+        if dir {
+            std::fs::create_dir_all(sbx.join(p)).unwrap();
+        } else {
+            std::fs::write(sbx.join(p), b"").unwrap();
+        }
+    };
+    mk("r/a", true);
+    mk("r/a/f", false);
+    mk("r/m", true);
+    mk("r/z", true);
+    mk("r/z/q", false);
+    let target = CString::new(sbx.join("r/m").to_string_lossy().as_bytes()).unwrap();
+    let (src, fst) = (CString::new("none").unwrap(), CString::new("tmpfs").unwrap());
+    let rc = unsafe { libc::mount(src.as_ptr(), target.as_ptr(), fst.as_ptr(), 0, std::ptr::null()) };
+    if rc != 0 {
+        ctx.rep.count("xdev_slice_skipped_(mount_not_permitted)", 1);
+        return;
+    }
+    struct Unmount(CString);
+    impl Drop for Unmount {
+        fn drop(&mut self) {
+            unsafe { libc::umount2(self.0.as_ptr(), libc::MNT_DETACH) };
+        }
+    }
+    let _guard = Unmount(target.clone());
+    mk("r/m/x", false);
+    mk("r/m/d", true);
+    mk("r/m/d/y", false);
+    let all = ["r", "r/a", "r/a/f", "r/m", "r/m/d", "r/m/d/y", "r/m/x", "r/z", "r/z/q"];
+    let below_mount = |p: &str| p.starts_with("r/m/");
+    let cases: Vec<(Vec<&str>, Vec<&str>)> = {
+        let mut v: Vec<(Vec<&str>, Vec<&str>)> = vec![];
+        for opt in ["-xdev", "-mount"] {
+            let xdev: Vec<&str> = all.iter().copied().filter(|p| !below_mount(p)).collect();
+            v.push((vec![opt, "-print"], xdev.clone()));
+            v.push((vec![opt, "(", "-name", "m", "-prune", ")", "-o", "-print"], xdev.iter().copied().filter(|p| *p != "r/m").collect()));
+            v.push((vec![opt, "-print", "-name", "m", "-prune"], xdev.clone()));
+            v.push((vec![opt, "-name", "m", "-prune", "-print"], vec!["r/m"]));
+            v.push((vec![opt, "(", "-name", "a", "-prune", ")", "-o", "-print"], xdev.iter().copied().filter(|p| !p.starts_with("r/a")).collect()));
+            v.push((vec![opt, "(", "-type", "d", "-name", "[am]", "-prune", ")", "-o", "-print"], vec!["r", "r/z", "r/z/q"]));
+            v.push((vec![opt, "-depth", "-print"], vec!["r/a/f", "r/a", "r/m", "r/z/q", "r/z", "r"]));
+            v.push((vec![opt, "-maxdepth", "1", "(", "-name", "m", "-prune", ")", "-o", "-print"], vec!["r", "r/a", "r/z"]));
+        }
+        // without -xdev the mount is entered, and pruning it leaves its siblings alone too
+        v.push((vec!["-print"], all.to_vec()));
+        v.push((vec!["(", "-name", "m", "-prune", ")", "-o", "-print"], all.iter().copied().filter(|p| !p.starts_with("r/m")).collect()));
+        v
+    };
+    std::env::set_current_dir(&sbx).unwrap();
+    for (expr, want) in cases {
+        let mut args: Vec<&str> = vec!["r", "-sorted"];
+        args.extend(expr.iter());
+        let got = run_find(&args);
+        ctx.rep.evaluations += 1;
+        ctx.rep.nontrivial += 1;
+        ctx.rep.count("xdev_cases", 1);
+        let lines: Vec<String> = String::from_utf8_lossy(&got.out).lines().map(String::from).collect();
+        if lines != want || got.code != Ok(0) {
+            let lost_sibling = want.iter().any(|w| !lines.iter().any(|l| l == w) && (w.starts_with("r/z") || *w == "r/m"));
+            ctx.rep.violation(
+                if lost_sibling { "C03 with -xdev/-mount the entries after a mount point are lost when it is pruned" } else { "C03 -xdev/-mount: visit list differs from the reference" },
+                format!("tree r/{{a/f, m (a mounted tmpfs holding x, d/y), z/q}}; find {:?}\nexpected {:?}\nactual   {:?} status {:?} stderr {:?}", args, want, lines, got.code, String::from_utf8_lossy(&got.err)),
+                json!({"prop":"C03","xdev":true}),
+            );
+        }
+    }
 }
 
 /// One hand-built tree beyond the exhaustive bound: sibling names of 15, 16, 17, 32 and 33 bytes
@@ -419,6 +498,10 @@ fn scale_slice(ctx: &mut Ctx) {
 }
 
 fn replay(case: &Value, ctx: &mut Ctx) -> Option<String> {
+    if case["xdev"] == true {
+        xdev_slice(ctx);
+        return ctx.rep.violations.keys().next().cloned();
+    }
     if case["scale"] == true {
         let (s0, n0) = (ctx.shard, ctx.nshards);
         ctx.shard = 0;
